@@ -21,15 +21,19 @@ GL = {
     "a": 0x61, "b": 0x62, "A-cy": 0x410, "Be-cy": 0x411, "alef-ar": 0x627, "beh-ar": 0x628,
     "ka-deva": 0x915, "ta-deva": 0x924, "period": 0x2E, "acutecomb": 0x301, "gravecomb": 0x300,
     "fatha-ar": 0x64E, "anusvara-deva": 0x902, "f_i": None,
+    "apostrophemod": 0x2BC,  # script extension spans Latn, Cyrl, ... : usable in several scripts
 }
 MARKS = {"acutecomb", "gravecomb", "fatha-ar", "anusvara-deva"}
 MIXES = {
     "latn": ["a", "b", "period", "acutecomb", "gravecomb", "f_i"],
-    "latn+cyrl": ["a", "b", "A-cy", "Be-cy", "period", "acutecomb", "gravecomb"],
+    "latn+cyrl": ["a", "b", "A-cy", "Be-cy", "apostrophemod", "period", "acutecomb", "gravecomb"],
     "arab": ["alef-ar", "beh-ar", "period", "fatha-ar"],
     "deva": ["ka-deva", "ta-deva", "period", "anusvara-deva"],
     "latn+arab": ["a", "b", "alef-ar", "beh-ar", "period", "acutecomb", "gravecomb", "fatha-ar"],
+    # Latin font that also contains (but does not export) Cyrillic glyphs, and kerns U+02BC
+    "latn+skipcyrl": ["a", "b", "A-cy", "Be-cy", "apostrophemod", "period", "acutecomb", "gravecomb"],
 }
+SKIPPED = {"latn+skipcyrl": ["A-cy", "Be-cy"]}
 LETTERS = {"latn": ("a", "b"), "cyrl": ("A-cy", "Be-cy"), "arab": ("alef-ar", "beh-ar"),
            "deva": ("ka-deva", "ta-deva")}
 LS_MENU = ["languagesystem DFLT dflt;", "languagesystem latn dflt;", "languagesystem latn TRK;",
@@ -51,14 +55,17 @@ def make_spec(mix, kern, anch, ls, user):
             g["unicodes"] = [GL[n]]
         glyphs[n] = g
     kerning = []
-    for sc in mix.split("+"):
+    scripts = [sc for sc in mix.split("+") if sc in LETTERS]
+    for sc in scripts:
         l1, l2 = LETTERS[sc]
         kerning.append((l1, l2, -40))
         if kern == "with-common":
             kerning.append((l1, "period", -20))
     if kern == "with-common":
         kerning.append(("period", "period", -10))
-    for sc in mix.split("+"):
+    if "apostrophemod" in glyphs:
+        kerning.append(("apostrophemod", "a", -15))
+    for sc in scripts:
         l1, l2 = LETTERS[sc]
         glyphs[l1]["anchors"].append(("top", 250, 600))
         glyphs[l2]["anchors"].append(("top", 260, 610))
@@ -73,7 +80,9 @@ def make_spec(mix, kern, anch, ls, user):
     if user == "gsub" and "f_i" not in glyphs:
         return None
     fea = "".join(l + "\n" for l, on in zip(LS_MENU, ls) if on) + USER[user]
-    spec = {"glyphs": glyphs, "order": list(glyphs), "kerning": kerning}
+    spec = {"glyphs": glyphs, "order": list(glyphs), "kerning": kerning, "lib": {}}
+    if mix in SKIPPED:
+        spec["lib"]["public.skipExportGlyphs"] = list(SKIPPED[mix])
     if fea:
         spec["features"] = fea
     return spec
@@ -156,6 +165,11 @@ class C20(Property):
                                     continue
                                 out.append([{"mix": mix, "kern": kern, "anch": anch, "ls": list(ls),
                                              "user": user, "flavour": fl}])
+                                if user == "none" and sum(ls) in (0, 5) or ls == (1, 1, 0, 0, 0):
+                                    for prev in ("latn+cyrl", "arab", "deva"):
+                                        if prev != mix:
+                                            out.append([{"mix": mix, "kern": kern, "anch": anch, "ls": list(ls),
+                                                         "user": user, "flavour": fl, "prev": prev}])
         return out
 
     def run(self, h, b):
@@ -164,7 +178,16 @@ class C20(Property):
         spec = make_spec(c["mix"], c["kern"], c["anch"], c["ls"], c["user"])
         font = B.build_font(spec)
         fn = ufo2ft.compileTTF if c["flavour"] == "ttf" else ufo2ft.compileOTF
-        tt = O.reload(fn(font, useProductionNames=False))
+        kw = {}
+        if c.get("prev"):
+            # the same feature-writer INSTANCES first compile another font (call history on the writers)
+            from ufo2ft.featureWriters import (CursFeatureWriter, GdefFeatureWriter, KernFeatureWriter,
+                                               MarkFeatureWriter)
+            writers = [CursFeatureWriter(), KernFeatureWriter(), MarkFeatureWriter(), GdefFeatureWriter()]
+            prev = make_spec(c["prev"], c["kern"], c["anch"], [1, 1, 0, 1, 1], "none")
+            fn(B.build_font(prev), useProductionNames=False, featureWriters=writers)
+            kw["featureWriters"] = writers
+        tt = O.reload(fn(font, useProductionNames=False, **kw))
         lay = O.Layout(tt)
         viols = []
         ctrs = {"langsys_checked": 0, "langsys_with_kern": 0, "required_features": 0,
@@ -175,6 +198,17 @@ class C20(Property):
             tags_present = set(lay.feature_tags())
             pairs = {t: attaching_pairs(lay, t) for t in GENERATED_ATTACH if t in tags_present}
             declared = {(l.split()[1], l.split()[2].rstrip(";")) for l, on in zip(LS_MENU, c["ls"]) if on}
+            # scripts the font demonstrably supports: an EXPORTED glyph whose script extension is that
+            # single script (how the writers themselves decide), or a languagesystem statement
+            exported = set(tt.getGlyphOrder())
+            known_tags = {t for t, _ in declared}
+            for g in exported:
+                uv = GL.get(g)
+                if uv is None:
+                    continue
+                ext = set(unicodedata.script_extension(chr(uv)))
+                if len(ext) == 1 and not ext & {"Zyyy", "Zinh"}:
+                    known_tags.update(unicodedata.ot_tags_from_script(next(iter(ext))))
             for tag in lay.script_tags():
                 ctrs["scripts_in_scriptlist"] += 1
                 for lang in [None] + lay.languages(tag):
@@ -197,6 +231,8 @@ class C20(Property):
                                 "feature-unreachable",
                                 {"feature": t,
                                  "langsys_declared": (tag, (lang or "dflt").strip()) in declared,
+                                 "script_supported": tag in known_tags or tag == "DFLT",
+                                 "reused_writers": bool(c.get("prev")),
                                  "langsys": "default" if lang is None else "named",
                                  "script": "DFLT" if tag == "DFLT" else "other"},
                                 script=tag, language=lang, listed=sorted(feats), example_pair=acts[0],
